@@ -46,9 +46,11 @@ def classify (s : Bytes) : Option DrvIso :=
   | some .nothing => none
   | some (.duration us) => if us ≤ maxTimedeltaUs then some (.cls .duration) else none
   | some (.datetime d) =>
-    some (.cls (match d.offset with
-      | none => .naive
-      | some _ => .aware d.offsetOk))
+    match d.offset with
+    | none => some (.cls .naive)
+    | some o =>
+      -- `timedelta(minutes=offset)` of FixedOffsetTimeZone overflows (→ ValueError)
+      if o.natAbs ≥ 1000000000 * 1440 then none else some (.cls (.aware d.offsetOk))
   | some .other => some .other
 
 def drvCodec : DTCodec DrvIso := { parse := classify, render := fun _ => [] }
